@@ -112,3 +112,11 @@ Definition bit_weight (i : nat) (j : Z) : Z := 2 ^ bit_exp i j.
 (* signed change of the word sum caused by the flip: +w when the bit was 0 *)
 Definition flip_delta (bs : list Z) (i : nat) (j : Z) : Z :=
   if Z.testbit (nth i bs 0) j then - bit_weight i j else bit_weight i j.
+
+(* any sequence of add_u16 calls through the checked code (used by the C14 statement that the
+   adder's panic site is unreachable whatever 16-bit words are fed to it) *)
+Fixpoint add_all_checked (acc : Z) (vs : list Z) : result Z :=
+  match vs with
+  | [] => Ok acc
+  | v :: r => do a <- add_u16_checked acc v; add_all_checked a r
+  end.
